@@ -522,13 +522,23 @@ where
 {
     let mut runner = TestRunner::new(proptest_config(seed, cases));
     let last_fail: Mutex<Option<Fail>> = Mutex::new(None);
-    let result = runner.run(&strategy, |v| match report.tolerate(f(&v)) {
+    // Once some worker has found a failure (the report is frozen) the other workers stop executing
+    // cases: their results would not be counted, and with expensive cases (sub-processes) they would
+    // only delay the verdict. The failing worker itself keeps executing (it is shrinking).
+    let i_am_failing = std::cell::Cell::new(false);
+    let result = runner.run(&strategy, |v| {
+        if report.is_frozen() && !i_am_failing.get() {
+            return Ok(());
+        }
+        match report.tolerate(f(&v)) {
         Ok(()) => Ok(()),
         Err(fail) => {
+            i_am_failing.set(true);
             report.freeze();
             let msg = fail.signature.clone();
             *last_fail.lock().unwrap() = Some(fail);
             Err(TestCaseError::fail(msg))
+        }
         }
     });
     match result {
